@@ -266,6 +266,197 @@ Proof.
 Qed.
 
 
+(* ---------- what strip_prefix leaves of root.join(raw) ---------- *)
+Definition nt (s : str) : bool := negb (seg_trivial s).
+
+Lemma seg_dotdot_not_trivial s : seg_dotdot s = true -> seg_trivial s = false.
+Proof. unfold seg_dotdot. intros H. apply lN_eqb_spec in H. subst s. reflexivity. Qed.
+
+Lemma existsb_dotdot_filter l : existsb seg_dotdot (filter nt l) = existsb seg_dotdot l.
+Proof.
+  induction l as [|s l IH]; [reflexivity|]. cbn [filter existsb]. unfold nt at 1.
+  destruct (seg_trivial s) eqn:E; cbn [negb existsb].
+  - rewrite IH. destruct (seg_dotdot s) eqn:D; [|reflexivity]. rewrite (seg_dotdot_not_trivial _ D) in E. discriminate.
+  - rewrite IH. reflexivity.
+Qed.
+
+Lemma has_parent_real p : has_parent p = existsb seg_dotdot (real_segs p).
+Proof. unfold has_parent, real_segs. symmetry. apply (existsb_dotdot_filter (segs p)). Qed.
+
+Lemma forallb_rev {A} (g : A -> bool) l : forallb g (rev l) = forallb g l.
+Proof.
+  induction l as [|x l IH]; [reflexivity|]. cbn [rev forallb]. rewrite forallb_app, IH. cbn [forallb].
+  rewrite andb_true_r. apply andb_comm.
+Qed.
+
+Lemma trim_trivial_sub2 l : exists a b,
+  l = a ++ trim_trivial l ++ b /\ forallb seg_trivial a = true /\ forallb seg_trivial b = true.
+Proof.
+  unfold trim_trivial. destruct (drop_trivial_split l) as (pre & E1 & H1).
+  destruct (drop_trivial_split (rev (drop_trivial l))) as (pre2 & E2 & H2).
+  exists pre, (rev pre2). split; [|split; [exact H1|rewrite forallb_rev; exact H2]].
+  rewrite E1 at 1. f_equal.
+  rewrite <- (rev_involutive (drop_trivial l)) at 1. rewrite E2 at 1. rewrite rev_app_distr. reflexivity.
+Qed.
+
+Lemma filter_nt_trivial a : forallb seg_trivial a = true -> filter nt a = [].
+Proof.
+  induction a as [|s a IH]; [reflexivity|]. cbn [forallb filter]. intros H. apply andb_true_iff in H.
+  destruct H as [Hs Ha]. unfold nt at 1. rewrite Hs. cbn [negb]. apply IH; exact Ha.
+Qed.
+
+Lemma filter_nt_trim l : filter nt (trim_trivial l) = filter nt l.
+Proof.
+  destruct (trim_trivial_sub2 l) as (a & b & E & Ha & Hb). rewrite E at 2.
+  rewrite !filter_app, (filter_nt_trivial a Ha), (filter_nt_trivial b Hb), app_nil_r. reflexivity.
+Qed.
+
+Lemma split_aux_noslash_id c s : forall cur, ~ In c s -> split_aux c cur s = [rev cur ++ s].
+Proof.
+  induction s as [|x s IH]; intros cur H; cbn [split_aux].
+  - rewrite app_nil_r. reflexivity.
+  - destruct (x =? c) eqn:E.
+    + apply N.eqb_eq in E. exfalso. apply H. left; exact E.
+    + rewrite IH by (intros Hin; apply H; right; exact Hin). cbn [rev]. rewrite <- app_assoc. reflexivity.
+Qed.
+
+Lemma segs_single s : ~ In 47 s -> segs s = [s].
+Proof. intros H. unfold segs, split_on. rewrite split_aux_noslash_id by exact H. reflexivity. Qed.
+
+Lemma segs_join_segs l : l <> [] -> Forall (fun s => ~ In 47 s) l -> segs (join_segs l) = l.
+Proof.
+  induction l as [|s l IH]; [congruence|]. intros _ H. inversion H as [|x y Hs Hl]; subst.
+  destruct l as [|s2 r].
+  - cbn [join_segs]. apply segs_single; exact Hs.
+  - change (join_segs (s :: s2 :: r)) with (s ++ 47 :: join_segs (s2 :: r)).
+    rewrite segs_app_sep, (segs_single s Hs), IH by (try discriminate; exact Hl). reflexivity.
+Qed.
+
+Lemma real_segs_join_trim L : Forall (fun s => ~ In 47 s) L ->
+  real_segs (join_segs (trim_trivial L)) = filter nt L.
+Proof.
+  intros H. rewrite <- (filter_nt_trim L). destruct (trim_trivial L) as [|s t] eqn:E; [reflexivity|].
+  unfold real_segs. rewrite segs_join_segs; [reflexivity|discriminate|].
+  destruct (trim_trivial_sub2 L) as (a & b & EL & _ & _). rewrite E in EL. rewrite EL in H.
+  apply Forall_app_inv in H. destruct H as [_ H]. apply Forall_app_inv in H. destruct H as [H _]. exact H.
+Qed.
+
+Lemma comp_eqb_refl c : comp_eqb c c = true.
+Proof. destruct c; try reflexivity. apply lN_eqb_spec. reflexivity. Qed.
+
+Lemma strip_body_nil sg : strip_body sg [] = Some sg.
+Proof. destruct sg; reflexivity. Qed.
+
+Lemma filter_nt_nil_all S : filter nt S = [] -> forallb seg_trivial S = true.
+Proof.
+  induction S as [|s S IH]; [reflexivity|]. cbn [filter forallb]. unfold nt at 1.
+  destruct (seg_trivial s); cbn [negb]; [exact IH|discriminate].
+Qed.
+
+Lemma strip_body_self S T : exists S2,
+  strip_body (S ++ T) (map seg_comp (filter nt S)) = Some (S2 ++ T) /\ forallb seg_trivial S2 = true.
+Proof.
+  induction S as [|s S IH].
+  - exists []. split; [apply strip_body_nil|reflexivity].
+  - destruct IH as (S2 & E & H2). cbn [filter]. unfold nt at 1. destruct (seg_trivial s) eqn:Es; cbn [negb].
+    + destruct (map seg_comp (filter nt S)) as [|c b'] eqn:Eb.
+      * exists (s :: S). split; [apply strip_body_nil|]. cbn [forallb]. rewrite Es. cbn [andb].
+        apply filter_nt_nil_all. destruct (filter nt S); [reflexivity|discriminate].
+      * exists S2. split; [|exact H2]. cbn [app strip_body]. rewrite Es. exact E.
+    + exists S2. split; [|exact H2]. cbn [map app strip_body]. rewrite Es, comp_eqb_refl. exact E.
+Qed.
+
+Lemma segs_join_decomp root raw : is_absolute raw = false -> root <> [] ->
+  exists S, segs (join root raw) = S ++ segs raw /\ filter nt S = real_segs root
+            /\ is_absolute (join root raw) = is_absolute root.
+Proof.
+  intros Ha Hne. unfold join. rewrite Ha. destruct (no_sep root) eqn:Hs.
+  - destruct (no_sep_cases root Hs) as [E|[a' E]]; [congruence|]. subst root. exists (segs a').
+    rewrite <- app_assoc. cbn [app]. rewrite segs_app_sep. split; [reflexivity|]. split.
+    + unfold real_segs. rewrite segs_snoc_sep, filter_app. cbn [filter seg_trivial negb]. rewrite app_nil_r. reflexivity.
+    + unfold is_absolute. destruct a'; reflexivity.
+  - exists (segs root). rewrite segs_app_sep. split; [reflexivity|]. split; [reflexivity|].
+    unfold is_absolute. apply starts_slash_app. exact Hne.
+Qed.
+
+Lemma is_absolute_ne p : is_absolute p = true -> p <> [].
+Proof. intros H ->. discriminate. Qed.
+
+Lemma head_comp_abs p : is_absolute p = true -> head_comp p = [CRoot].
+Proof. unfold head_comp. intros ->. reflexivity. Qed.
+
+(* a relative string under an absolute root: `..` is refused; everything else is recorded under a
+   name with the same real segments — the file the tools address for the same string *)
+Theorem to_relative_relative root raw :
+  is_absolute root = true -> is_absolute raw = false ->
+  (has_parent raw = true -> to_relative root raw = Err V_PARENT)
+  /\ (has_parent raw = false -> exists rel, to_relative root raw = Ok rel /\ real_segs rel = real_segs raw).
+Proof.
+  intros Hr Ha. pose proof (is_absolute_ne _ Hr) as Hne.
+  destruct (segs_join_decomp root raw Ha Hne) as (S & ES & EF & EA).
+  destruct (strip_body_self S (segs raw)) as (S2 & Eb & H2).
+  assert (Estrip : strip_prefix root (join root raw) = Some (join_segs (trim_trivial (S2 ++ segs raw)))).
+  { unfold strip_prefix. rewrite (head_comp_abs _ Hr), (head_comp_abs (join root raw)) by (rewrite EA; exact Hr).
+    cbn [list_eqb comp_eqb andb]. unfold body_comps. rewrite <- EF. fold nt. rewrite ES, Eb. reflexivity. }
+  assert (Hns : Forall (fun s => ~ In 47 s) (S2 ++ segs raw)).
+  { pose proof (segs_noslash (join root raw)) as Hn. rewrite ES in Hn.
+    destruct (strip_body_suffix _ _ _ Eb) as [pre Ep]. rewrite Ep in Hn. apply Forall_app_inv in Hn. exact (proj2 Hn). }
+  assert (Ereal : real_segs (join_segs (trim_trivial (S2 ++ segs raw))) = real_segs raw).
+  { rewrite real_segs_join_trim by exact Hns. rewrite filter_app, (filter_nt_trivial S2 H2). reflexivity. }
+  unfold to_relative. rewrite Ha, Estrip. rewrite (has_parent_real (join_segs _)), Ereal, <- has_parent_real.
+  split; intros Hp; rewrite Hp; [reflexivity|]. eexists. split; [reflexivity|exact Ereal].
+Qed.
+
+(* `..` in an absolute string, too, is refused (the root itself has no `..`) *)
+Lemma seg_comp_parent s : comp_eqb CParent (seg_comp s) = seg_dotdot s.
+Proof. unfold seg_comp. destruct (seg_dotdot s); reflexivity. Qed.
+
+Lemma strip_body_parent sg : forall b rest, strip_body sg b = Some rest ->
+  existsb (comp_eqb CParent) b = false -> existsb seg_dotdot sg = existsb seg_dotdot rest.
+Proof.
+  induction sg as [|s sg IH]; intros b rest H Hb.
+  - destruct b; cbn [strip_body] in H; [inversion H; reflexivity|discriminate].
+  - destruct b as [|c b]; [cbn [strip_body] in H; inversion H; reflexivity|].
+    cbn [strip_body] in H. cbn [existsb] in Hb. apply orb_false_iff in Hb. destruct Hb as [Hc Hb].
+    cbn [existsb]. destruct (seg_trivial s) eqn:Et.
+    + assert (seg_dotdot s = false) as ->.
+      { destruct (seg_dotdot s) eqn:D; [|reflexivity]. rewrite (seg_dotdot_not_trivial _ D) in Et. discriminate. }
+      cbn [orb]. apply (IH (c :: b) rest H). cbn [existsb]. rewrite Hc, Hb. reflexivity.
+    + destruct (comp_eqb (seg_comp s) c) eqn:Ec; [|discriminate].
+      assert (seg_dotdot s = false) as ->.
+      { rewrite <- seg_comp_parent. destruct (seg_comp s), c; cbn in *; try discriminate; try reflexivity. }
+      cbn [orb]. apply (IH b rest H Hb).
+Qed.
+
+Lemma body_comps_parent base : existsb (comp_eqb CParent) (body_comps base) = has_parent base.
+Proof.
+  rewrite has_parent_real. unfold body_comps. induction (real_segs base) as [|s l IH]; [reflexivity|].
+  cbn [map existsb]. rewrite seg_comp_parent, IH. reflexivity.
+Qed.
+
+Lemma strip_prefix_parent base p rel :
+  has_parent base = false -> strip_prefix base p = Some rel -> has_parent rel = has_parent p.
+Proof.
+  intros Hb. unfold strip_prefix. destruct (list_eqb comp_eqb (head_comp base) (head_comp p)); [|discriminate].
+  destruct (strip_body (segs p) (body_comps base)) as [rest|] eqn:E; [|discriminate].
+  intros H; inversion H; subst rel.
+  assert (Hns : Forall (fun s => ~ In 47 s) rest).
+  { pose proof (segs_noslash p) as Hn. destruct (strip_body_suffix _ _ _ E) as [pre Ep]. rewrite Ep in Hn.
+    apply Forall_app_inv in Hn. exact (proj2 Hn). }
+  rewrite has_parent_real, real_segs_join_trim by exact Hns. rewrite existsb_dotdot_filter.
+  unfold has_parent. symmetry. apply (strip_body_parent _ _ _ E). rewrite body_comps_parent. exact Hb.
+Qed.
+
+Theorem to_relative_refuses_parent root raw :
+  is_absolute root = true -> has_parent root = false -> has_parent raw = true ->
+  to_relative root raw = Err V_PARENT \/ to_relative root raw = Err V_OUTSIDE.
+Proof.
+  intros Hr Hb Hp. destruct (is_absolute raw) eqn:Ha.
+  - unfold to_relative. rewrite Ha. destruct (strip_prefix root raw) as [rel|] eqn:E; [|right; reflexivity].
+    rewrite (strip_prefix_parent _ _ _ Hb E), Hp. left; reflexivity.
+  - left. apply (proj1 (to_relative_relative root raw Hr Ha)). exact Hp.
+Qed.
+
 (* ---------- auto-checkpoint ---------- *)
 Lemma auto_write_refused_before_store root raw e :
   resolve_tool root raw = Err e -> auto_write_paths raw = Err e.
@@ -285,6 +476,27 @@ Lemma auto_patch_refused_before_store root raw e :
 Proof.
   unfold patch_target. destruct (parse_rel_path raw) as [t|e'] eqn:E; [|intros H; exact H].
   destruct (parse_rel_path_ok _ _ E) as (_ & _ & Ha & Hp). rewrite (resolver_accepts root t Ha Hp). discriminate.
+Qed.
+
+(* the auto-checkpoint covers the file the tool addresses: same real segments below the root *)
+Lemma auto_write_covers root raw p cwd :
+  is_absolute root = true -> resolve_tool root raw = Ok p ->
+  exists rel, auto_write_paths raw = Ok raw /\ to_relative root raw = Ok rel
+    /\ real_segs rel = real_segs raw /\ kresolve cwd p = kresolve cwd root ++ real_segs rel.
+Proof.
+  intros Hr H. destruct (resolve_tool_ok _ _ _ H) as (Ha & Hp & _).
+  destruct (proj2 (to_relative_relative root raw Hr Ha) Hp) as (rel & Et & Er).
+  exists rel. split; [eapply auto_write_accepted_same; exact H|]. split; [exact Et|]. split; [exact Er|].
+  rewrite Er. eapply resolver_sound; exact H.
+Qed.
+
+Lemma auto_patch_covers root raw p cwd :
+  is_absolute root = true -> patch_target root raw = Ok p ->
+  exists t rel, parse_rel_path raw = Ok t /\ to_relative root t = Ok rel
+    /\ real_segs rel = real_segs t /\ kresolve cwd p = kresolve cwd root ++ real_segs rel.
+Proof.
+  intros Hr H. unfold patch_target in H. destruct (parse_rel_path raw) as [t|e] eqn:E; [|discriminate].
+  destruct (auto_write_covers root t p cwd Hr H) as (rel & _ & Et & Er & Ek). exists t, rel. repeat split; assumption.
 Qed.
 
 (* ---------- the behaviour before the repairs (S10), refuted on named witnesses ---------- *)
